@@ -33,9 +33,13 @@ Soundness of acceptance, for every crypto record, as reductions to explicit coll
   the way, and that the root the block section climbed to is therefore *one of the adopted roots*, whose
   hashes the signature covers.
 
-Partial (`sound_partial`): a block under a root that the same proof's upgrade introduces on a replica that
-already has roots (the `grow` branch), the seek section, additional nodes, and the byte-length bookkeeping
-are not yet covered by theorems; the
+* `sound_first_contact_extra`, `sound_block_upgrade` : the same with additional nodes, and on **any** honest
+  replica (its own roots sit at tree positions), including the `grow` branch of `verify_upgrade` where the
+  replica's last roots are merged upwards into a larger signed root and the block's root may be consumed on
+  the way: authenticity flows backwards from the signed roots through every merge (`mergeLoop_back`).
+
+Partial (`sound_partial`): the seek section, hash sections next to an upgrade, and the byte-length
+bookkeeping are not yet covered by theorems; the
 alteration run checks them on the implementation (after every accepted proof every held block must
 equal the writer's and (length, byte length) must be a prefix sum of the writer's log; refused proofs
 must leave all observations unchanged).
@@ -126,6 +130,41 @@ theorem sound_first_contact_extra (C : Crypto) (bs : Array Bytes) (wfork : Nat) 
     (hv : t.verifyProof C f p pk = .ok cs') :
     Sound.Collision C ∨ Sound.TreeCollision C ∨ b.value = bs.getD b.index [] ∨ b.value = (bs.extract 0 cs'.length).getD b.index [] :=
   UpgradeSound.first_contact_sound_extra C bs wfork Signed t f pk p b u cs' hb hs hu hfresh hunf hsig hlen hsize hwf hb1 hb2 hT hauth hv
+
+/-- **block + upgrade on any honest replica**, including the `grow` branch: the replica's last roots are merged
+    upwards into a larger signed root, and the block's root may be one of the nodes consumed on the way -/
+theorem sound_block_upgrade (C : Crypto) (bs : Array Bytes) (wfork : Nat) (Signed : Bytes → Prop)
+    (t : Tree) (f : File) (pk : Bytes) (p : Proof) (b : Codec.DataBlock) (u : Codec.DataUpgrade) (cs' : Changeset)
+    (hb : p.block = some b) (hs : p.seek = none) (hu : p.upgrade = some u)
+    (hcanon : ∀ l, t.changeset.roots.getLast? = some l → ∃ d o, l.index = Flat.index d o ∧ d ≤ 64)
+    (hunf : ∀ m sig, C.verify pk m sig = true → Signed m)
+    (hsig : ∀ m, Signed m → ∃ n, n ≤ bs.size ∧ m = RefTree.signableOf C (bs.extract 0 n) wfork)
+    (hlen : ∀ x, (C.tree x).length = 32) (hsize : bs.size < 2 ^ 64) (hwf : wfork < 2 ^ 64)
+    (hb1 : cs'.length < 2 ^ 64) (hb2 : p.fork < 2 ^ 64) (hT : u.start + u.length < 2 ^ 64)
+    (hauth : Sound.StoreAuthentic C bs t f)
+    (hv : t.verifyProof C f p pk = .ok cs') :
+    Sound.Collision C ∨ Sound.TreeCollision C ∨ b.value = bs.getD b.index [] ∨ b.value = (bs.extract 0 cs'.length).getD b.index [] :=
+  UpgradeSound.block_upgrade_sound C bs wfork Signed t f pk p b u cs' hb hs hu hcanon hunf hsig hlen hsize hwf hb1 hb2 hT hauth hv
+
+/-- non-vacuity of `hcanon`: the roots of a tree that satisfies the reference-roots invariant sit at tree positions
+    of depth below 64 -/
+example (C : Crypto) (bsn : Array Bytes) (cs : Changeset) (h : RefProof.RootsOK C bsn cs) (hn : bsn.size < 2 ^ 64) :
+    ∀ l, cs.roots.getLast? = some l → ∃ d o, l.index = Flat.index d o ∧ d ≤ 64 := by
+  intro l hl
+  have hmem : l ∈ cs.roots := List.mem_of_getLast? hl
+  have hr := congrArg List.reverse h.roots
+  simp only [List.reverse_reverse] at hr
+  rw [hr] at hmem
+  simp only [List.mem_reverse, List.mem_map] at hmem
+  obtain ⟨pos, hpos, rfl⟩ := hmem
+  refine ⟨pos.1, pos.2, rfl, ?_⟩
+  have hb := RefProof.rootsStack_bound _ pos hpos
+  by_cases hle : pos.1 ≤ 64
+  · exact hle
+  · exfalso
+    have h1 : 2 ^ 64 ≤ 2 ^ pos.1 := Nat.pow_le_pow_right (by decide) (by omega)
+    have h2 : 1 * 2 ^ pos.1 ≤ (pos.2 + 1) * 2 ^ pos.1 := Nat.mul_le_mul_right _ (by omega)
+    omega
 
 /-- non-vacuity: an empty tree has no roots and an empty store is trivially authentic -/
 example (C : Crypto) (bs : Array Bytes) : ({} : Tree).changeset.roots = [] ∧ Sound.StoreAuthentic C bs {} File.empty := by
